@@ -31,7 +31,8 @@ func init() {
 		Explanation: "Decides the structural conditions of run merging: the sort comparator orders by every field of the de-duplication key (diagnosticDescriptor, read from descriptor()) before the build name, so that equal descriptors are adjacent and their build names are unioned (R12.1); " +
 			"mergeRuns has a case for every MergeStrategy constant, keeps 'any' problems unconditionally and 'all' problems only when no run that checked the file lacks the descriptor, quantifying over the whole runs slice (R12.2, R12.3); " +
 			"the -f binary writer normalises checked files and both descriptor positions with the same function and clears their offsets (R12.4); runs are keyed by descriptor(), every checked file is recorded, BuildName is stamped on every problem, the merge strategy travels from the check's documentation to the problem (R12.5). " +
-			"It does NOT decide commutativity/idempotence as algebraic laws over multisets of runs.",
+			"It does NOT decide commutativity/idempotence as algebraic laws over multisets of runs." +
+			" Also decided: the reader shared by the per-run gob decoders of -merge input implements io.ByteReader (otherwise each decoder buffers ahead privately and later runs of a stream are lost).",
 		RuleText:    "comparator chain and descriptor/equality keys are extracted from the AST with symbolic resolution of local aliases; path rules on the SSA CFG",
 		Assumptions: []string{"sort.Slice orders the slice consistently with a strict weak order"},
 		Run:         runC12,
